@@ -233,6 +233,18 @@ def episode(scn):
                 results.append(await fetch(step[1], step[2], force=True, probe=True))
             elif step[0] == "set":
                 results.append(await write(step[1], step[2]))
+            elif step[0] == "set-invalid":      # a schedule the validator refuses (or that cannot be packed): an error, nothing sent, nothing left behind
+                bad_days = [[{"day_of_week": 0, "switchpoints": [{"time_of_day": "07:03", "heat_setpoint": 40.0}]}],
+                            [{"day_of_week": 0, "switchpoints": []}],
+                            [{"day_of_week": 300, "switchpoints": [{"time_of_day": "07:00", "heat_setpoint": 20.0}]}],
+                            "not a schedule"][step[2] % 4]
+                try:
+                    await asyncio.wait_for(zones[step[1]]._schedule.set_schedule(bad_days), 30)
+                    results.append(("invalid-schedule-accepted", None))
+                except TimeoutError:
+                    results.append(("write-abandoned", None))
+                except Exception as err:  # noqa: BLE001
+                    results.append(("refused:" + type(err).__name__, None))
             elif step[0] == "together":
                 results.extend(await asyncio.gather(*(fetch(z, step[2]) for z in step[1])))
             obs.setdefault("lock_after", []).append(gwy.tcs.zone_lock_idx)
@@ -485,6 +497,10 @@ def run(ctx: Ctx) -> None:
                 scns.append({"seed": seed, "plan": {str(pos): kind}, "steps": [("fetch", 0, 30), ("set", 0, 30), ("fetch", 0, 400), ("fetch", 1, 400)], "dispatch": True,
                              "n_aw": base["calls"], "pos": pos, "kind": "write+" + kind + "+quiet-unforced"})
         scns.append({"seed": seed, "plan": {}, "steps": [("fetch", 0, 30), ("bump", 0)] + PROBES, "dispatch": True, "n_aw": n_aw, "pos": None, "kind": "change-between"})
+        # a write REFUSED for what it is asked to write (a setpoint / time of day outside the schema, no switchpoints, a day that cannot be packed, not a
+        # schedule at all): an error to the caller, then both zones are fetched, undisturbed
+        for k in range(4):
+            scns.append({"seed": seed, "plan": {}, "steps": [("fetch", 1, 30), ("set-invalid", 0, k), ("bump", 1)] + PROBES, "n_aw": n_aw, "pos": None, "kind": "write-refused"})
     coq_cases, impl_rows = [], []
     for s in scns:
         o = episode(s)
@@ -499,13 +515,15 @@ def run(ctx: Ctx) -> None:
             ctx.violation("reply-heard-by-the-entities-raises:" + e.split(":")[0], "a schedule reply, delivered to the entities as the dispatcher does, raised: " + e, case, "fault-sequence")
         if s["kind"] == "write" and res[1] != "written":
             ctx.violation("undisturbed-write-fails", "an undisturbed schedule write does not end with the controller holding the new schedule", case, "fault-sequence")
+        if "invalid-schedule-accepted" in res:
+            ctx.violation("invalid-schedule-accepted", "a schedule outside the schema was written without an error", case, "fault-sequence")
         if "write-returns-other-schedule" in res:
             ctx.violation("write-returns-other-schedule", "a schedule write returned although the controller does not hold that schedule", case, "fault-sequence")
         if "wrong-schedule" in res:
             ctx.violation("mixed-or-wrong-schedule", "a fetch returned a schedule that the controller never had for that zone", case, "fault-sequence")
         fetches = []          # the step each result belongs to
         for st in s["steps"]:
-            fetches += [st] if st[0] in ("fetch", "probe", "set") else [("fetch", z, st[2]) for z in st[1]] if st[0] == "together" else []
+            fetches += [st] if st[0] in ("fetch", "probe", "set", "set-invalid") else [("fetch", z, st[2]) for z in st[1]] if st[0] == "together" else []
         for st, r in zip(fetches, res):
             if st[0] == "probe" and r == "stale-schedule":
                 ctx.violation("probe-returns-stale-schedule", "an undisturbed, forced fetch returns an earlier version of the zone's schedule, not the controller's current one", case, "fault-sequence")
